@@ -1158,6 +1158,9 @@ func (m *Machine) unflat(leaves []*Term, t types.Type) (Val, []*Term) {
 			vel = p.Elem()
 		}
 		n := len(leavesOf(vel))
+		if !strings.Contains(leaves[0].S, "q_") {
+			m.AssumeT(Ge(leaves[0], IntLit(0))) // slice lengths are non-negative
+		}
 		if m.SpecView {
 			// contract views read proto []*T fields by value
 			return &SeqV{Elem: vel, Len: leaves[0], Leaves: leaves[1 : 1+n], IsNil: False}, leaves[1+n:]
